@@ -3,6 +3,8 @@ import SimuVerif.Lemmas.SurfaceCollapseEuler
 import SimuVerif.Lemmas.Field
 import SimuVerif.Gen.RemeshConsts
 import SimuVerif.Lemmas.RemeshRefine
+import SimuVerif.Lemmas.SurfaceCheckers
+import SimuVerif.Model.RemeshChecks
 /-
   C01 — cell surfaces stay closed, consistently oriented 2-manifolds under remeshing.
 
@@ -200,6 +202,25 @@ theorem concrete_swap_inv {fn : Fn R} {c c' : Cell R} {e : Edge}
     (hab : e.n1 ≠ e.n2) (he : EdgeFaces c e e.n1 e.n2) (hidx : EdgeIdxSound c)
     (hg : SwapGuard (Remesh.abs c) e.n1 e.n2) : Inv (Remesh.abs c') :=
   swapEdge_inv h hf hI hab he hidx hg
+
+/-- the Boolean checks the driver evaluates before every executed split (`chkSplitHyps`) imply the hypotheses of
+    `split_refines` — so the refinement theorem applies to exactly the operations the harness compared with the real code -/
+theorem split_checks_sound (c : Cell R) (e : Edge) (h : chkSplitHyps c e = true) :
+    FaceFreeOk c ∧ Inv (Remesh.abs c) ∧ e.n1 ≠ e.n2 ∧ EdgeFaces c e e.n1 e.n2 := by
+  unfold chkSplitHyps at h
+  simp only [Bool.and_eq_true, bne_iff_ne, ne_eq] at h
+  obtain ⟨⟨⟨⟨h1, h2⟩, h3⟩, h4⟩, h5⟩ := h
+  exact ⟨faceFreeOk_of_B (c := c) h1, inv_of_B h2 h3, h4, edgeFaces_of_B (c := c) h5⟩
+
+/-- likewise for the swap (`chkSwapHyps`) -/
+theorem swap_checks_sound (c : Cell R) (e : Edge) (h : chkSwapHyps c e = true) :
+    FaceFreeOk c ∧ Inv (Remesh.abs c) ∧ e.n1 ≠ e.n2 ∧ EdgeFaces c e e.n1 e.n2 ∧ EdgeIdxSound c ∧
+      SwapGuard (Remesh.abs c) e.n1 e.n2 := by
+  unfold chkSwapHyps at h
+  simp only [Bool.and_eq_true] at h
+  obtain ⟨⟨h1, h2⟩, h3⟩ := h
+  obtain ⟨a, b, c', d⟩ := split_checks_sound c e h1
+  exact ⟨a, b, c', d, edgeIdxSound_of_B (c := c) h2, swapGuard_of_B h3⟩
 end refinement
 
 /-! ### non-vacuity -/
